@@ -35,9 +35,12 @@ var registry = map[string]checkFn{
 	"C25": checkC25,
 	"C27": checkC27,
 	"C28": checkC28,
+	"C29": checkC29,
+	"C31": checkC31,
 	"C32": checkC32,
 	"C33": checkC33,
 	"C34": checkC34,
+	"C35": checkC35,
 }
 
 func main() {
